@@ -9,7 +9,7 @@ from mc.trees import Trees
 
 PID = 'C14'
 LEVEL = 'exploration'
-RULE = ('A: left sides = every concatenation of <=n atoms from a 25-atom '
+RULE = ('A: left sides = every concatenation of <=n atoms from a 31-atom '
         'hostile alphabet (Python keywords, operators, brackets, digits, '
         'dots, quotes, backslash, numeric prefixes, a %(t)s placeholder) x '
         'right sides {x, %(t)s, %(missing)s} x flat targets with a value of '
@@ -30,7 +30,7 @@ ASSUMPTIONS = ['% only inside well-formed %(name)s placeholders',
 
 H = ['class', 'lambda', 'None', 'a', '0', '1+', '-', '.', '..', "'", '"',
      '(', '[', '{', ']', '\\', '0x', '1e', '1_', "b'", 'é', '%(t)s', ',',
-     '1,2', '()']
+     '1,2', '()', '}', ')', '[]', '{[]}', '{{}}', '2j']
 BOUNDS = {'quick': dict(atoms=2, containers=3),
           'thorough': dict(atoms=3, containers=3, big_b=True)}
 RIGHTS = ['x', '%(t)s', '%(missing)s']
